@@ -8,6 +8,11 @@ claimed = {
    note="Trusted: gxbytes.Buffer / encoding/binary / byteio / bytes.Reader models (assumed contracts), the layout table itself (written from the Seata 1.x serializer), govc + go/ssa + SMT solvers. 64-bit + - * mathematical. The four shared base codecs and one-line ByteBuffer wrappers are expanded inline at call sites (their bodies are verified too).",
    ref="DESIGN.md §3 C12",
    technique="contract-based deductive verification: weakest-precondition style VCs from go/ssa by symbolic execution, contracts in //@ comment files, discharged by cvc5/z3"),
+ "C13": dict(
+   text="Deductive proof over the real SSA of RpcPackageHandler.Read/Write, decodeHeapMap, encodeHeapMap and the ByteBuffer readers they use, for arbitrary input bytes: fewer than 16 bytes or a valid header announcing more bytes than available => nil package and nil error (need more data, nothing consumed or fabricated); a complete frame => consumed length == TotalLength, header fields reproduced, body handed to the codec manager exactly from the head length on, heartbeats get ping/pong; a returned package always has consumed length > 0; no panic for any bytes; the head-map loop terminates (variant) and one entry (including empty key or value) round-trips; Write emits the v1 frame layout around the head-map and body bytes. Independence of trailing bytes follows from the strengthened C12 Decode contracts (body ++ rest).",
+   note="Trusted: getty's receive loop (environment named by the property), gxbytes.Buffer/byteio models, GetCodecManager singleton (trusted contract), 'no codec registered under type code 0' and len(data) < 2^31 (requires). The induction over the byte stream (any chunking yields the same messages) is a pencil step over need-more/complete/progress + purity of Read. Not proved: encodeHeapMap's per-entry bytes and the n-entry lifting of the head-map round trip (only the single-entry case is); a head map that is inconsistent with HeadLength is not diagnosed.",
+   ref="DESIGN.md §3 C13",
+   technique="contract-based deductive verification: VCs from go/ssa by symbolic execution with loop invariants/variants, contracts in //@ comment files, discharged by cvc5/z3"),
 }
 na = {
  "C18": "relates generated SQL text executed by MySQL to the rows another SQL text changed; needs a formal semantics of MySQL DML and of the arana-db parser AST, which no contract within reach of a self-written VC generator can express (DESIGN.md §4)",
